@@ -31,6 +31,10 @@ pub struct GenCfg {
   pub wide: bool,
   /// Share (out of 10) of cases whose programs use only exact checkers.
   pub exact_share: u32,
+  /// History contains SetFaults steps (C18).
+  pub fault_steps: bool,
+  /// History contains ArmPanic steps (C19).
+  pub panic_steps: bool,
 }
 
 impl GenCfg {
@@ -39,7 +43,7 @@ impl GenCfg {
       max_tasks: 6, max_src: 3, max_gen: 3, max_stmts: 5, max_steps: 8,
       rchks: RCHKS.to_vec(), ochks: OCHKS.to_vec(), wchks: vec![RChk::Exact],
       faulty: false, multi_access: true, bottom_up: false, dyn_targets: true, written_to: true,
-      bottom_up_weight: 3, wide: false, exact_share: 3,
+      bottom_up_weight: 3, wide: false, exact_share: 3, fault_steps: false, panic_steps: false,
     }
   }
   pub fn thorough() -> Self {
@@ -451,6 +455,8 @@ pub fn build_history(g: &Genome, prog: &Program, cfg: &GenCfg) -> History {
     let mut kinds: Vec<u8> = vec![0, 0, 0, 1, 1, 1];
     if n_gen > 0 { kinds.push(2); }
     if cfg.bottom_up && i > 0 { for _ in 0..cfg.bottom_up_weight { kinds.push(3); } }
+    if cfg.fault_steps { kinds.extend([4, 4]); }
+    if cfg.panic_steps && i > 0 { kinds.extend([5, 5, 5]); }
     let k = if i == 0 { 0 } else { kinds[rd.pick(kinds.len())] };
     match k {
       0 => {
@@ -469,6 +475,23 @@ pub fn build_history(g: &Genome, prog: &Program, cfg: &GenCfg) -> History {
         let v = rd.pick(5);
         steps.push(Step::Change { res, val: if v < 4 { Some(v as Val) } else { None } });
         if !pending.contains(&res) { pending.push(res); }
+      }
+      4 => {
+        // Fault set: none, all, or a few (resource, checker kind) pairs.
+        let faults: Vec<(ResId, RChk)> = match rd.pick(4) {
+          0 => vec![],
+          1 => (0..prog.n_res).flat_map(|r| RCHKS.iter().map(move |k| (r, *k))).collect(),
+          _ => (0..1 + rd.pick(3)).map(|_| (rd.pick(prog.n_res as usize) as ResId, RCHKS[rd.pick(RCHKS.len())])).collect(),
+        };
+        steps.push(Step::SetFaults { faults });
+      }
+      5 => {
+        // Abort the next build at its k-th task-side operation point, then build (same roots again later).
+        let after = 1 + rd.pick(24) as u32;
+        steps.push(Step::ArmPanic { after });
+        let n_roots = 1 + rd.pick(2);
+        let builds = (0..n_roots).map(|_| Build::TopDown(rd.pick(n_tasks) as TaskId)).collect();
+        steps.push(Step::Session { builds });
       }
       _ => {
         if pending.is_empty() {
